@@ -124,7 +124,7 @@ Print Assumptions C08_failed_write_never_acknowledged.
    every refusal a conflict makes this statement -- and with it the next one -- fail to check. *)
 Theorem C08_refusal_read_back_regenerated :
   gen_refused_reads_back = true /\ (forall names_ours, gen_write_landed names_ours = names_ours).
-Proof. exact (conj refused_reads_back write_landed_spec). Qed.
+Proof. exact refusal_read_back_regenerated. Qed.
 Print Assumptions C08_refusal_read_back_regenerated.
 
 (* An attempt is at / past its commit point EXACTLY when the store applied its pointer write; nobody is told "conflict" about
